@@ -38,10 +38,10 @@ ENTRY = dict(
                "computable witness schedule) + actor differential against the real taskTrace with enforced and perturbed "
                "schedules + function differentials + engine lock-step replay"),
     lean_modules=["Bpmn.Props.C08", "Bpmn.Props.C08Current"],
-    families=["c08tt", "c08filter", "c08retry", "c08eng", "c08par"],
+    families=["c08tt", "c08filter", "c08retry", "c08eng", "c08par", "c08kind"],
     exhaustive=True,
     facts_from=["Engine"],
-    rule=("c08par: declared results stored while another token of the instance is inside an embedded sub-process (a parallel block: sub-process — one or two levels — on one branch, a plain task on the other; both orders of answering), read behind the join by a condition and in the final variables; c08tt: a real taskTrace (bpmn.VerifNewTaskTraceFor), 1..3 Do calls x {sequential, concurrent, all callers "
+    rule=("c08kind: a declared result stored TWICE by one token with values of different kinds (int then string, string then int, bool then string, int then bool, float then string, string then list; one control with the kind unchanged), a gateway in between, the condition behind the second store reading the new value (expr language): the token takes the flow the stored value demands, no error trace; c08par: declared results stored while another token of the instance is inside an embedded sub-process (a parallel block: sub-process — one or two levels — on one branch, a plain task on the other; both orders of answering), read behind the join by a condition and in the final variables; c08tt: a real taskTrace (bpmn.VerifNewTaskTraceFor), 1..3 Do calls x {sequential, concurrent, all callers "
           "parked behind the done check through the schedule point tasktrace.do.before_send and then released (the "
           "witness), process goroutine parked at tasktrace.process.forwarding} x {no event, context cancelled before / "
           "while parked, timeout before / while parked} x seeded perturbation levels; blocked = the Do goroutine is still "
